@@ -44,9 +44,19 @@ def confirm(d, meta):
 def main():
     args = sys.argv[1:]
     do_confirm = "--confirm" in args
+    # --wt=<dir>: instead of patching /repo, use a scratch worktree of /repo's HEAD at <dir> (created here, removed at the
+    # end) and let the checks import flumine from it (PYTHONPATH) - several of these can run side by side
+    wt = None
+    for a in args:
+        if a.startswith("--wt="):
+            wt = a.split("=", 1)[1]
     names = [a for a in args if not a.startswith("--")] or sorted(os.path.basename(os.path.dirname(p)) for p in glob.glob("/verif/seeded/*/meta.json"))
     rc, out = sh("git -C /repo status --short")
-    assert out.strip() == "", "uncommitted changes in /repo:\n" + out
+    assert wt or out.strip() == "", "uncommitted changes in /repo:\n" + out
+    if wt:
+        sh("git -C /repo worktree remove --force %s" % wt)
+        rc, out = sh("git -C /repo worktree add --detach %s HEAD" % wt)
+        assert rc == 0, out
     for name in names:
         d = os.path.join("/verif/seeded", name)
         meta = json.load(open(os.path.join(d, "meta.json")))
@@ -59,25 +69,39 @@ def main():
         hist = meta.setdefault("history", [])
         if meta.get("checks") and not any(h.get("checks") == meta["checks"] for h in hist):
             hist.append({"machinery": meta.get("machinery", "first run"), "detected_by": meta.get("detected_by", []), "checks": meta["checks"]})
-        rc, out = sh("git -C /repo apply %s/patch.diff" % d)
-        assert rc == 0, out
+        if wt:
+            rc, out = sh("git apply %s/patch.diff" % d, cwd=wt)
+        else:
+            rc, out = sh("git -C /repo apply %s/patch.diff" % d)
+        if rc != 0:
+            print(name, "PATCH DOES NOT APPLY", out[:200], flush=True)
+            continue
         results = {}
         try:
             for c in checks:
                 t0 = time.time()
-                rcc, outc = sh("cd %s && ./check %s --tier quick" % (SNAP, c))
+                rcc, outc = sh("cd %s && ./check %s --tier quick" % (SNAP, c), env=({"PYTHONPATH": wt} if wt else None))
                 lines = [l for l in outc.splitlines() if l.startswith(("VIOLATION", "KNOWN-FINDING", "DRIFT", "SPEC-ERROR", "MACHINERY-ERROR", "NOTE")) or " quick" in l]
                 results[c] = {"exit": rcc, "wall_s": round(time.time() - t0, 1), "lines": [l[:400] for l in lines[:12]]}
         finally:
-            sh("git -C /repo checkout -- .")
+            if wt:
+                sh("git checkout -- .", cwd=wt)
+            else:
+                sh("git -C /repo checkout -- .")
             if SNAP == "/verif":
                 sh("cd /verif && git checkout -- evidence 2>/dev/null; rm -f /verif/replays/*")
         meta["checks"] = results
         meta["detected_by"] = [c for c, r in results.items() if r["exit"] == 1]
         meta["machinery"] = os.environ.get("VERIF_COMMIT", "current")
+        meta["mode"] = "worktree" if wt else "repo"
         json.dump(meta, open(os.path.join(d, "meta.json"), "w"), indent=1)
         print(name, "confirmed", meta.get("confirmed"), "detected by", meta["detected_by"], {c: r["exit"] for c, r in results.items()}, flush=True)
 
 
 if __name__ == "__main__":
-    main()
+    try:
+        main()
+    finally:
+        for a in sys.argv[1:]:
+            if a.startswith("--wt="):
+                sh("git -C /repo worktree remove --force %s" % a.split("=", 1)[1])
